@@ -534,6 +534,28 @@ class OpsMixin:
                 self.uncount(t)
                 self._advance(t)
             return
+        f = t.inline_flush
+        if f is not None and not f.done:
+            # the worker awaits flush() inline: cancelling it abandons that flush (as in _abandon_flush) - gather()
+            # passes the cancellation on to the tasks it waits for, i.e. into their still running callbacks; a second
+            # Task.cancel() of the worker before it has resumed is passed on once more
+            t.vias.add("in_flush")
+            f.abandoned = True
+            cur = asyncio.current_task()
+            for o in t.pool.tasks.values():
+                if not o.complete and (o.finished or o.ccb or o.ecb or o.unbegun_cancelled):
+                    if o.task is cur and o is not t:
+                        # the code issuing this cancellation runs inside a callback of a task the abandoned flush is
+                        # gathering: gather() cancels that very task while it is running - a self-cancellation by detour
+                        if not o.pending:
+                            o.pending = True
+                            o.owed += 1
+                            o.self_pending = True
+                            self.triggers.add("T.self_cancel")
+                            self.sit["self_cancel_via_abandoned_inline_flush"] += 1
+                    else:
+                        o.extra_ok += 1
+            self.sit["flush_inline_abandoned_by_cancel"] += 1
         if t.pending:
             return
         t.pending = True
@@ -815,7 +837,7 @@ class OpsMixin:
         self.sit["flush_abandoned"] += 1
         task.cancel()
 
-    async def _flush(self, pr, rex, explicit=True, holder=None):
+    async def _flush(self, pr, rex, explicit=True, holder=None, inline=None):
         must = {tid for tid, t in pr.tasks.items() if t.complete and t.forget != "forgotten"}
         live = {tid for tid, t in pr.tasks.items() if not t.complete}
         f = FlushRec(pr, rex, len(self.log), must, live)
@@ -827,6 +849,14 @@ class OpsMixin:
         f.in_cb_at_call = {tid for tid, t in pr.tasks.items() if not t.complete and (t.finished or t.ccb or t.ecb or t.unbegun_cancelled)}
         if holder is not None:
             holder["f"] = f
+        if inline is not None:
+            inline.inline_flush = f
+            if inline.pending:
+                # a cancellation of the worker is already under way: it will hit the flush at its first suspension
+                f.abandoned = True
+                for o in pr.tasks.values():
+                    if not o.complete and (o.finished or o.ccb or o.ecb or o.unbegun_cancelled):
+                        o.extra_ok += 1
         pr.flushes.append(f)
         h0 = self.loop.vf_handle_no
         self.ev("flush_call", pr.idx, rex)
@@ -838,12 +868,19 @@ class OpsMixin:
         except BaseException as e:  # noqa: BLE001
             f.raised = e
             self.ev("flush_raise", pr.idx, type(e).__name__)
+            if inline is not None and isinstance(e, CancelledError):
+                self.sit["flush_inline_cancelled"] += 1
         else:
             self.ev("flush_ret", pr.idx)
         f.done = True
         f.suspended = self.loop.vf_handle_no - h0
         pr.flushes.remove(f)
         self.on_flush_done(pr, f)
+        if inline is not None:
+            inline.inline_flush = None
+            inline.q_suspended = f.suspended > 0
+            if isinstance(f.raised, CancelledError):
+                raise f.raised
 
     # ------------------------------------------------------------ gather_and_close
     def start_gac(self, step, issuer):
